@@ -353,8 +353,12 @@ def run(ctx):
     ptf = ctx.flow(pt.qualname)
     ok = False
     for c, s, b in ptf.calls:
-        if is_call_to(c, '_transfer') and len(c.args) == 3:
-            d = c.args[1]
+        if is_call_to(c, '_transfer'):
+            from .common import args_in_order
+            bound = args_in_order(c, model.func('PlateSlicer._transfer'))
+            if len(bound) < 2 or bound[1] is None:
+                continue
+            d = bound[1]
             # destination is a slice: the Plate case was wrapped as [:]
             opts = d.options if isinstance(d, Phi) else [d]
             ok = any(isinstance(strip_refs(o), ast.Subscript) for o in opts) and \
